@@ -18,6 +18,44 @@ def main():
     seq = pulser.Sequence(reg, MockDevice)
     seq.declare_channel("ch", "rydberg_global")
     seq.add(pulser.Pulse.ConstantPulse(100, 2.0, 0.0, 0.0), "ch")
+    # the number of trajectories pulser is asked for is the configured one, however the noise model is given
+    # (through the config, or through the device's default noise model -- which may still carry the
+    # deprecated NoiseModel.runs)
+    import dataclasses
+    import emu_base.pulser_adapter as PA
+    from emu_base import PulserData
+    asked = {}
+    orig_fs = PA.HamiltonianData.from_sequence
+
+    def spy_fs(*a, **k):
+        asked["n"] = k.get("n_trajectories")
+        return orig_fs(*a, **k)
+    for via_device, runs, n_traj in ((False, None, 4), (True, None, 5), (True, 3, 5), (True, 7, 2)):
+        extra = {} if runs is None else {"runs": runs, "samples_per_run": 1}
+        try:
+            noise = pulser.NoiseModel(state_prep_error=0.05, **extra)
+        except Exception as e:
+            print(f"  scenario runs={runs}: noise model not constructible ({type(e).__name__}); skipped")
+            continue
+        dev = dataclasses.replace(MockDevice, default_noise_model=noise) if via_device else MockDevice
+        s2 = pulser.Sequence(reg, dev)
+        s2.declare_channel("ch", "rydberg_global")
+        s2.add(pulser.Pulse.ConstantPulse(100, 2.0, 0.0, 0.0), "ch")
+        kw = {"prefer_device_noise_model": True} if via_device else {"noise_model": noise}
+        cfg = SVConfig(n_trajectories=n_traj, observables=[BitStrings(evaluation_times=[1.0], num_shots=10)], log_level=50, **kw)
+        PA.HamiltonianData.from_sequence = staticmethod(spy_fs)
+        try:
+            pd = PulserData(sequence=s2, config=cfg, dt=cfg.dt)
+            n_seq = sum(1 for _ in pd.get_sequences())
+        finally:
+            PA.HamiltonianData.from_sequence = orig_fs
+        print(f"  noise model via {'device' if via_device else 'config'}, NoiseModel.runs={runs}, n_trajectories={n_traj}: "
+              f"pulser asked for {asked.get('n')}, {n_seq} sequences yielded")
+        if asked.get("n") != n_traj or n_seq != n_traj:
+            print(f"REPRODUCED: n_trajectories={n_traj} configured (noise model via {'the device' if via_device else 'the config'}, "
+                  f"NoiseModel.runs={runs}) but pulser was asked for {asked.get('n')} trajectories and {n_seq} simulations "
+                  "would be run and aggregated")
+            return 1
     bad = None
     for ntraj in (1, 3, 5):
         nm = pulser.NoiseModel(state_prep_error=0.05)
